@@ -27,7 +27,7 @@ CLAIMS = {
     "C09": dict(
         text="Bounded symbolic model checking of the real rotate / (X^p-1) / automorphism kernels (int64 and double, in place and out of "
              "place in the same query) and of the vector/big wrappers against the signed-permutation specification: p fully symbolic over "
-             "int64 for N<=8, every residue mod 2N with representatives (incl. negative, far, near INT64_MIN) for N in {16,32} (to 256 thorough), "
+             "int64 for N<=8, every residue mod 2N with representatives (incl. negative, far, near INT64_MIN) for N in {16,32} (to 128 thorough), "
              "data symbolic. For N>=16 this is all residues, not all int64 p.",
         note="cbmc 6.11; rnx (X^p-1) on doubles uses an injective probe vector instead of symbolic data (IEEE subtraction behind index selection is "
              "not decided by SAT here); automorphism only for odd p",
